@@ -266,7 +266,8 @@ class C16(Prop):
         "idFilterAdv_origorder", "consensus_by_all_selects", "consensus_by_rf_selects", "consensus_by_sample_selects",
         "pbAdv_consensus_cascade", "average_sampling_in_bounds", "average_all_empty", "linkage_additive_ultrametric", "idFilterAdv_consensus_cascade", "linkage_cladesizes_root", "fragment_rule_documented", "pairId_text_digital_agree", "pairId_text_digital_agree_dna", "msaSingleLinkage_one_cluster_at_zero", "idFilterText_keeps_first_at_zero", "blosum_all_one_at_zero", "idFilterDigital_keeps_top_at_zero",
         "gsc_tieRule_family_contains_code", "gsc_tieRule_irrelevant_without_ties", "gsc_no_tieRule_is_relisting_invariant", "gsc_sum_nonneg_any_join_order",
-        "simulate_roll_names_active_branch", "simulate_invariant", "simulate_step_in_bounds", "simulate_finish_in_bounds", "compare_self_ok")]
+        "simulate_roll_names_active_branch", "simulate_invariant", "simulate_step_in_bounds", "simulate_finish_in_bounds", "compare_self_ok",
+        "threshold_linked_rounded_eq_exact", "singleLinkage_rounded_threshold_components", "idFilter_rounded_threshold", "blosum_rounded_threshold_clusters")]
     claimed = True
     technique = ("Lean 4 proof over the exact (Q) instance of a numeric-class-polymorphic executable model of esl_distance/esl_cluster/"
                  "esl_msacluster/esl_quicksort/esl_msaweight/esl_tree(UPGMA) + bit-exact differential correspondence of the Float instance "
